@@ -4,6 +4,7 @@ package main
 
 import (
 	"fmt"
+	"sort"
 	"go/types"
 	"math/big"
 	"strings"
@@ -13,12 +14,56 @@ import (
 
 var bigSort = SArr(SRef, SInt)
 
+// Package-level *big.Int constants (initialised once, never reassigned) keep their value: every
+// write to a big.Int in the verified code carries the obligation that its target is none of the
+// constants the function reads (safe.constwrite), so a read of such a constant is its literal.
 func (fr *Frame) bigGet(st *State, ref *Term) *Term {
+	if v, ok := fr.fc.eng.constBig[ref]; ok {
+		fr.fc.usedConsts[ref] = true
+		return IntLit(v)
+	}
 	return Select(fr.fc.get(st, "big", bigSort), ref)
 }
 
 func (fr *Frame) bigSet(st *State, ref, v *Term) {
+	if !fr.fc.initMode {
+		fr.fc.bigWrites = append(fr.fc.bigWrites, bigWrite{pc: st.pc, z: ref, where: fr.oname()})
+	}
 	st.heap["big"] = Store(fr.fc.get(st, "big", bigSort), ref, v)
+}
+
+type bigWrite struct {
+	pc, z *Term
+	where string
+}
+
+// constWriteObligations: no big.Int write of the function targets a constant it relies on.
+func (fc *FuncCtx) constWriteObligations(ids []string) {
+	if len(fc.usedConsts) == 0 {
+		return
+	}
+	var cs []*Term
+	for c := range fc.usedConsts {
+		cs = append(cs, c)
+	}
+	sort.Slice(cs, func(i, j int) bool { return cs[i].id < cs[j].id })
+	// distinct constants are distinct objects (different allocations of the initialiser)
+	for i := range cs {
+		for j := i + 1; j < len(cs); j++ {
+			fc.assume(True, Not(Eq(cs[i], cs[j])))
+		}
+	}
+	seen := map[int]bool{}
+	for _, w := range fc.bigWrites {
+		if seen[w.z.id] && false {
+			continue
+		}
+		var conj []*Term
+		for _, c := range cs {
+			conj = append(conj, Not(Eq(w.z, c)))
+		}
+		fc.oblige(fc.site(fc.fn+"#safe.constwrite"), "safe", ids, w.pc, And(conj...), nil, "a big.Int written in place is not one of the shared package constants ("+w.where+")")
+	}
 }
 
 func iLit(v int64) *Term { return IntLit64(v) }
@@ -35,11 +80,58 @@ func iSub(a, b *Term) *Term {
 	}
 	return Op("-", SInt, a, b)
 }
+// iMul: products with a literal factor stay linear; products of two symbolic factors use the
+// uninterpreted symbol imul (shared by code and specification, with audited sign/unit axioms).
 func iMul(a, b *Term) *Term {
 	if a.IsLit() && b.IsLit() && a.val != nil && b.val != nil {
 		return IntLit(new(big.Int).Mul(a.val, b.val))
 	}
-	return Op("*", SInt, a, b)
+	if a.IsLit() {
+		a, b = b, a
+	}
+	if b.IsLit() && b.val != nil {
+		if b.val.Cmp(big.NewInt(1)) == 0 {
+			return a
+		}
+		if b.val.Sign() == 0 {
+			return IntLit64(0)
+		}
+		return Op("*", SInt, a, b)
+	}
+	isLitIte := func(t *Term) bool {
+		return t.op == "ite" && t.args[1].IsLit() && t.args[2].IsLit()
+	}
+	if isLitIte(b) {
+		return Ite(b.args[0], iMul(a, b.args[1]), iMul(a, b.args[2]))
+	}
+	if isLitIte(a) {
+		return Ite(a.args[0], iMul(b, a.args[1]), iMul(b, a.args[2]))
+	}
+	return App("imul", SInt, a, b)
+}
+
+// eDiv / eMod: Euclidean quotient and remainder (SMT-LIB div/mod == math/big Div/Mod); native for
+// literal divisors, otherwise the uninterpreted symbols ediv/emod with audited range axioms.
+func eDiv(x, y *Term) *Term {
+	if y.IsLit() && y.val != nil && y.val.Sign() != 0 {
+		if x.IsLit() && x.val != nil {
+			q, _ := new(big.Int).DivMod(x.val, y.val, new(big.Int))
+			return IntLit(q)
+		}
+		return Op("div", SInt, x, y)
+	}
+	return App("ediv", SInt, x, y)
+}
+
+func eMod(x, y *Term) *Term {
+	if y.IsLit() && y.val != nil && y.val.Sign() != 0 {
+		if x.IsLit() && x.val != nil {
+			_, m := new(big.Int).DivMod(x.val, y.val, new(big.Int))
+			return IntLit(m)
+		}
+		return Op("mod", SInt, x, y)
+	}
+	return App("emod", SInt, x, y)
 }
 func iLt(a, b *Term) *Term { return Op("<", SBool, a, b) }
 func iLe(a, b *Term) *Term { return Op("<=", SBool, a, b) }
@@ -377,8 +469,8 @@ func (fr *Frame) bigMethod(st *State, f *ssa.Function, m string, args []*Term, i
 	case "Div", "Mod", "Quo", "Rem", "DivMod", "QuoRem":
 		x, y := val(1), val(2)
 		fr.safe(st, "div", Not(Eq(y, zero)), in, "big.Int division by zero")
-		ediv := Op("div", SInt, x, y)
-		emod := Op("mod", SInt, x, y)
+		ediv := eDiv(x, y)
+		emod := eMod(x, y)
 		// truncated division from Euclidean
 		tq := Ite(Or(Op(">=", SBool, x, zero), Eq(emod, zero)), ediv, Ite(Op(">", SBool, y, zero), iAdd(ediv, iLit(1)), iSub(ediv, iLit(1))))
 		tr := iSub(x, iMul(y, tq))
@@ -416,9 +508,26 @@ func (fr *Frame) bigMethod(st *State, f *ssa.Function, m string, args []*Term, i
 	case "Lsh":
 		return set(iMul(val(1), pow2Term(args[2])))
 	case "Rsh":
-		return set(Op("div", SInt, val(1), pow2Term(args[2])))
+		return set(eDiv(val(1), pow2Term(args[2])))
 	case "And":
-		return set(bitop("bigand", val(1), val(2)))
+		a, b := val(1), val(2)
+		// x & (2^k - 1) == x mod 2^k for every integer x (two's complement semantics of math/big)
+		isMask := func(t *Term) (*big.Int, bool) {
+			if t.IsLit() && t.val != nil && t.val.Sign() > 0 {
+				p := new(big.Int).Add(t.val, big.NewInt(1))
+				if new(big.Int).And(p, t.val).Sign() == 0 {
+					return p, true
+				}
+			}
+			return nil, false
+		}
+		if p, ok := isMask(b); ok {
+			return set(Op("mod", SInt, a, IntLit(p)))
+		}
+		if p, ok := isMask(a); ok {
+			return set(Op("mod", SInt, b, IntLit(p)))
+		}
+		return set(bitop("bigand", a, b))
 	case "Or":
 		return set(bitop("bigor", val(1), val(2)))
 	case "Xor":
@@ -430,9 +539,12 @@ func (fr *Frame) bigMethod(st *State, f *ssa.Function, m string, args []*Term, i
 	case "Exp":
 		x, y := val(1), val(2)
 		e := App("bigexp", SInt, x, y)
+		if x.IsLit() && y.IsLit() && x.val != nil && y.val != nil && y.val.Sign() >= 0 && y.val.BitLen() <= 16 {
+			e = IntLit(new(big.Int).Exp(x.val, y.val, nil))
+		}
 		mref := args[3]
 		mv := fr.bigGet(st, mref)
-		r := Ite(Or(Eq(mref, IntLit64(0)), Eq(mv, zero)), e, Op("mod", SInt, e, Ite(iLt(mv, zero), Op("-", SInt, mv), mv)))
+		r := Ite(Or(Eq(mref, IntLit64(0)), Eq(mv, zero)), e, eMod(e, Ite(iLt(mv, zero), Op("-", SInt, mv), mv)))
 		return set(r)
 	case "Cmp":
 		return []*Term{cmpInt(val(0), val(1))}, true
